@@ -226,6 +226,63 @@ func checkC07(c *mc.Ctx) {
 		c.Ev.AddScenario(mc.Scenario{Name: "pat-sections-merges", SpaceSize: int64(len(orders)), Executed: pd, Exhaustive: pd == int64(len(orders)), Bound: fmt.Sprintf("all merges of a 2-section PAT (2 units), 2 PMT PIDs and a PES PID, lengths %v", lens)})
 	}
 
+	// tables that repeat while others are in flight: three identical single-packet PATs, two multi-packet
+	// PMTs (3 and 2 packets), a multi-packet PES: a PMT unit must be delivered in every merge in which a PAT
+	// packet precedes its first packet - repeating the PAT must not disturb a PMT being assembled
+	{
+		ccs := []uint8{2, 8, 13}
+		pat := modelPAT(1, 0x1000)
+		var patPk []*ref.Pkt
+		for i := 0; i < 3; i++ {
+			patPk = append(patPk, Packetize(PSIUnit(0, 0, [][]byte{SecPAT(pat, ref.SecHdr{CNI: true})}, nil), nil, &ccs[0], true)...)
+		}
+		pmtA, pmtB := modelPMT(1, 0x100, 90), modelPMT(1, 0x101, 45)
+		uA := PSIUnit(0x1000, 0, [][]byte{SecPMT(pmtA, ref.SecHdr{CNI: true})}, []ExpData{{Kind: "PMT", Table: pmtA}})
+		uB := PSIUnit(0x1000, 0, [][]byte{SecPMT(pmtB, ref.SecHdr{CNI: true, Version: 1})}, []ExpData{{Kind: "PMT", Table: pmtB}})
+		pkA, pkB := Packetize(uA, nil, &ccs[1], true), Packetize(uB, nil, &ccs[1], true)
+		pes := Packetize(PESUnit(0x100, 0xe0, pesPayload(77, 300, c.Seed), 7, false), nil, &ccs[2], false)
+		lists := [][]*ref.Pkt{patPk, append(append([]*ref.Pkt{}, pkA...), pkB...), pes}
+		lens := []int{len(lists[0]), len(lists[1]), len(lists[2])}
+		orders := mc.AllMerges(lens)
+		pd := mc.ParFor(int64(len(orders)), c.OverBudget, func(i int64) {
+			o := orders[i]
+			st := BuildStream("pat-repeats", lists, o, nil)
+			out := DemuxBytes(st.Bytes)
+			// PMT units whose first packet comes after a PAT packet
+			seenPAT, k := 0, 0
+			var must []ExpData
+			for _, s := range o {
+				switch s {
+				case 0:
+					seenPAT++
+				case 1:
+					if k == 0 && seenPAT > 0 {
+						must = append(must, uA.Exp[0])
+					}
+					if k == len(pkA) && seenPAT > 0 {
+						must = append(must, uB.Exp[0])
+					}
+					k++
+				}
+			}
+			j := 0
+			for _, d := range byPID(out.Data)[0x1000] {
+				if j < len(must) {
+					if ok, _ := must[j].Matches(d); ok {
+						j++
+					}
+				}
+			}
+			if j != len(must) || out.Panic != nil || len(byPID(out.Data)[0]) != 3 || len(byPID(out.Data)[0x100]) != 1 {
+				c.Rep.Report("repeated-pat-disturbs-other-pids", map[string]any{"kind": "stream", "what": o, "bytes": mc.Hex(st.Bytes), "message": fmt.Sprintf("%d PMT units start after a PAT, %d of them delivered; %d PAT, %d PES delivered (3 and 1 carried)", len(must), j, len(byPID(out.Data)[0]), len(byPID(out.Data)[0x100]))})
+				return
+			}
+			c.Ev.Class("pat-repeated-during-pmt", 1)
+		})
+		c.Ev.DistinctAdd(pd)
+		c.Ev.AddScenario(mc.Scenario{Name: "pat-repeats-merges", SpaceSize: int64(len(orders)), Executed: pd, Exhaustive: pd == int64(len(orders)), Bound: fmt.Sprintf("all merges of 3 identical PAT packets, two multi-packet PMT units on one PID and a multi-packet PES, lengths %v", lens)})
+	}
+
 	// insertions: null, adaptation-only of a used PID, TEI packet of a used PID, at every position of
 	// several base schedules
 	bases := [][]int{roundRobin(l.lists)}
